@@ -127,6 +127,10 @@ func (s *State) WriteFile(rel string, data []byte) {
 	p := "root/" + rel
 	for d := filepath.Dir(p); d != "." && d != "root"; d = filepath.Dir(d) {
 		s.Dirs[d] = true
+		delete(s.Files, d) // a regular file in the way of a directory is replaced
+	}
+	if s.Dirs[p] {
+		s.RemoveDir(rel)
 	}
 	s.Files[p] = data
 }
